@@ -360,3 +360,47 @@ End AnyShape.
 
 Lemma per_rule_meets_reference : inverse_toggles = true -> meets_reference PerRule.
 Proof. intros Ht inc exc inv s. apply per_rule_correct. exact Ht. Qed.
+
+(* ------------------------------------------------------------------ the sites that use a list *)
+Section Sites.
+  Hypothesis Hspec : meets_reference the_shape.
+  Hypothesis Hforms : deny_also_without_trailing_dot = true /\ direct_also_without_trailing_dot = true.
+
+  Lemma site_forms_ref st h : site_forms st h = ref_forms st h.
+  Proof. destruct Hforms as [H1 H2]. destruct st; cbn [site_forms ref_forms]; rewrite ?H1, ?H2; reflexivity. Qed.
+
+  Lemma hit_model_spec l forms :
+    existsb (fun e => negb (fst e)) l = true -> forallb (fun e => compiles (snd e)) l = true ->
+    hit_model l forms = Some (existsb (entries_reference l) forms).
+  Proof.
+    intros Hi Hc. induction forms as [|f r IH]; [reflexivity|]. cbn [hit_model fold_right existsb].
+    fold (hit_model l r). rewrite IH, (entries_correct the_shape Hspec l 0 f Hi Hc). reflexivity.
+  Qed.
+
+  (* a site answers yes exactly when, for one of the forms of the name it is to consult, some include entry matches that
+     form on its own and no exclude entry does *)
+  Lemma site_verdict_spec st l h :
+    l <> [] -> existsb (fun e => negb (fst e)) l = true -> forallb (fun e => compiles (snd e)) l = true ->
+    site_verdict st l h = Some (existsb (entries_reference l) (ref_forms st h)).
+  Proof.
+    intros Hn Hi Hc. unfold site_verdict. destruct l; [congruence|]. cbn [is_nil].
+    rewrite site_forms_ref. apply hit_model_spec; assumption.
+  Qed.
+
+  Definition configured (l : list (bool * rx)) : Prop :=
+    l = [] \/ (existsb (fun e => negb (fst e)) l = true /\ forallb (fun e => compiles (snd e)) l = true).
+  Definition list_says (st : site) (l : list (bool * rx)) (h : str) : bool :=
+    if is_nil l then false else existsb (entries_reference l) (ref_forms st h).
+
+  Lemma site_verdict_configured st l h : configured l -> site_verdict st l h = Some (list_says st l h).
+  Proof.
+    intros [->|[Hi Hc]]; [reflexivity|]. unfold list_says. destruct l as [|e l']; [reflexivity|].
+    cbn [is_nil]. apply site_verdict_spec; [discriminate|assumption|assumption].
+  Qed.
+
+  (* deny-domains and direct-domains together: refused when the deny list says yes, else direct when the direct list
+     says yes, else the upstream proxy — each list judged on its own, whatever the other list contains *)
+  Lemma route_spec deny direct h : configured deny -> configured direct ->
+    route deny direct h = Some (route_code (list_says SiteDeny deny h) (list_says SiteDirect direct h)).
+  Proof. intros Hd Hr. unfold route. rewrite (site_verdict_configured _ _ _ Hd), (site_verdict_configured _ _ _ Hr). reflexivity. Qed.
+End Sites.
